@@ -507,7 +507,16 @@ def run(ctx, chk, tier="quick"):
                        "floating-point operations on origin-free values are identical in shifted runs"]
     an = Analyzer(ctx, chk)
     analysed = 0
-    for name in SCOPE:
+    # the modules named above, plus any module of the package that they import (a helper moved out of them)
+    scope = list(SCOPE)
+    for name in list(scope):
+        m_ = ctx.repo.modules.get(name)
+        for tgt in (m_.aliases.values() if m_ is not None else ()):
+            parts = tgt.split(".")
+            if len(parts) >= 2 and parts[0] == "spowtd" and parts[1] in ctx.repo.modules and parts[1] not in scope \
+                    and parts[1] not in ("spline", "specific_yield", "transmissivity", "pestfiles", "user_interface", "simulate_rise", "simulate_recession"):
+                scope.append(parts[1])
+    for name in scope:
         if name not in ctx.repo.modules:
             chk.indeterminate("C07.O1", ("spowtd/%s.py" % name, "<module>", 0), "module missing")
             continue
@@ -522,7 +531,9 @@ def run(ctx, chk, tier="quick"):
         chk.ob(rule, False, where_of(f, node), found, required, key=key, why=why)
     chk.count("functions_analysed", an.n_functions)
     chk.count("epoch_seeds", an.n_seeds)
-    chk.floor("functions analysed in the time-origin scope", analysed, 30)
+    # non-vacuity: the epoch sources are what matters (floors on the seeds and the SQL expressions below);
+    # the number of functions changes with every extraction / inlining and is only reported
+    chk.floor("functions analysed in the time-origin scope", analysed, 20)
     chk.floor("SQL result names seeded as absolute epochs", an.n_seeds, 8)
     if not an.findings:
         chk.ob("C07.O1", True, ("spowtd/classify.py", "<scope>", 0),
